@@ -173,6 +173,22 @@ Theorem C11_source_sinks_deliver : forall (A : Type),
 Proof. exact sinks_deliver. Qed.
 Print Assumptions C11_source_sinks_deliver.
 
+(* Buffer and sink composed, from the extracted programs only: one renderer writes ws through
+   the buffer with the source's threshold and closes it; whatever the interleaving of caller,
+   renderer sends and writer goroutine, the call ends with the sink holding concat ws. *)
+Theorem C11_source_end_to_end : forall (A : Type),
+  Forall (fun dwn : list stmt * list stmt * nat =>
+    exists d w, parse_driver (strip (fst (fst dwn))) = Some d /\ parse_writer (strip (snd (fst dwn))) = Some w /\
+      forall (ws : list (list A)) (c : ist A),
+        let batches := sent (Buffer.run (snd dwn) (map (@Write A) ws ++ [Close])) in
+        ireach (w_cons w) (w_opens w) (d_returns d) None (fun _ => false) None (iinit batches) c ->
+        istuck (w_cons w) (w_opens w) (d_returns d) None (fun _ => false) None c ->
+        i_m c = MRet /\ i_k c = Some KExit /\ i_wg c = 0 /\ i_out c = concat ws)
+    [(ToTriangles, WriteTriangles, tBufferSize); (ToSTL, writeSTL, tBufferSize); (To3MF, write3MF, tBufferSize);
+     (ToDXF, writeDXF, lBufferSize); (ToSVG, writeSVG, lBufferSize)].
+Proof. exact end_to_end. Qed.
+Print Assumptions C11_source_end_to_end.
+
 (* non-vacuity: the thresholds found in the source satisfy 1 <= N, a two-producer
    interleaving exists, and the model flushes at the threshold. *)
 Example C11_real_thresholds : 1 <= tBufferSize /\ 1 <= lBufferSize.
